@@ -1,5 +1,6 @@
-// Unit `rowid_sequence` -- multi-segment row id sequence, random access (C34: "a row id sequence holds exactly the ids it
-// was built from, in order"; C15: take by position): RowIdSequence::get from rust/lance-table/src/rowids.rs.
+// Unit `rowid_sequence` -- multi-segment row id sequence (C34: "a row id sequence holds exactly the ids it was built from, in
+// order ... slicing ... behave like the same operations on a plain list"; C15: take by position):
+// RowIdSequence::{get, slice} and struct RowIdSeqSlice from rust/lance-table/src/rowids.rs.
 use vstd::prelude::*;
 verus! {
 
@@ -59,6 +60,109 @@ pub proof fn lemma_flat_index(segs: Seq<U64Segment>, k: int, j: int, idx: int)
     }
 }
 
+/// flat(segs, k) is flat(segs, 0) without its first total(segs, k) elements
+pub proof fn lemma_flat_skip(segs: Seq<U64Segment>, k: int)
+    requires 0 <= k <= segs.len(),
+    ensures flat(segs, 0).len() == total(segs, segs.len() as int), total(segs, k) <= flat(segs, 0).len(),
+            flat(segs, 0).skip(total(segs, k) as int) =~= flat(segs, k),
+    decreases k
+{
+    lemma_flat_len(segs, 0);
+    lemma_total_mono(segs, k, segs.len() as int);
+    if k == 0 {
+    } else {
+        lemma_flat_skip(segs, k - 1);
+        lemma_total_mono(segs, k - 1, segs.len() as int);
+        lemma_flat_len(segs, k - 1);
+        // flat(k-1) = view(k-1) + flat(k)
+        assert(flat(segs, k - 1) =~= seg_view(&segs[k - 1]) + flat(segs, k));
+        assert(flat(segs, 0).skip(total(segs, k) as int) =~= flat(segs, 0).skip(total(segs, k - 1) as int).skip(seg_view(&segs[k - 1]).len() as int));
+    }
+}
+/// the first total(b+1)-total(a) elements of flat(segs, a) are the flattening of segments a..=b
+pub proof fn lemma_flat_sub(segs: Seq<U64Segment>, a: int, b: int)
+    requires 0 <= a <= b + 1 <= segs.len(),
+    ensures total(segs, a) <= total(segs, b + 1),
+            flat(segs.subrange(a, b + 1), 0) =~= flat(segs, a).take(total(segs, b + 1) - total(segs, a)),
+    decreases b + 1 - a
+{
+    lemma_total_mono(segs, a, b + 1);
+    lemma_flat_len(segs, a);
+    lemma_total_mono(segs, b + 1, segs.len() as int);
+    let sub = segs.subrange(a, b + 1);
+    if a == b + 1 {
+        assert(sub.len() == 0);
+    } else {
+        lemma_flat_sub(segs, a + 1, b);
+        let sub2 = segs.subrange(a + 1, b + 1);
+        assert(sub[0] == segs[a]);
+        assert(flat(sub, 0) =~= seg_view(&sub[0]) + flat(sub, 1));
+        lemma_flat_shift(sub, sub2, 1);
+        assert(flat(sub, 1) =~= flat(sub2, 0));
+        assert(flat(segs, a) =~= seg_view(&segs[a]) + flat(segs, a + 1));
+        assert(total(segs, a + 1) == total(segs, a) + seg_view(&segs[a]).len());
+    }
+}
+/// flattening from index k of s equals flattening from index 0 of s.skip(k)
+pub proof fn lemma_flat_shift(s: Seq<U64Segment>, t: Seq<U64Segment>, k: int)
+    requires 0 <= k <= s.len(), t =~= s.skip(k),
+    ensures flat(s, k) =~= flat(t, 0),
+    decreases s.len() - k
+{
+    if k < s.len() {
+        lemma_flat_shift(s, s.skip(k + 1), k + 1);
+        lemma_flat_shift(t, t.skip(1), 1);
+        assert(t.skip(1) =~= s.skip(k + 1));
+        assert(t[0] == s[k]);
+    }
+}
+/// the ids a RowIdSeqSlice denotes (read off RowIdSeqSlice::iter: first segment from offset_start, middle segments
+/// whole, last segment up to offset_last) = flatten the covered segments, drop offset_start from the front, stop at
+/// offset_last inside the last one
+pub open spec fn denote(sg: Seq<U64Segment>, os: int, ol: int) -> Seq<u64> {
+    if sg.len() == 0 { Seq::empty() } else { flat(sg, 0).subrange(os, total(sg, sg.len() as int - 1) + ol) }
+}
+pub proof fn lemma_total_sub(segs: Seq<U64Segment>, a: int, b: int, k: int)
+    requires 0 <= a <= b + 1 <= segs.len(), 0 <= k <= b + 1 - a,
+    ensures total(segs.subrange(a, b + 1), k) == total(segs, a + k) - total(segs, a),
+    decreases k
+{
+    lemma_total_mono(segs, a, a + k);
+    if k > 0 { lemma_total_sub(segs, a, b, k - 1); assert(segs.subrange(a, b + 1)[k - 1] == segs[a + k - 1]); }
+}
+/// positional description of a slice (what `slice` ensures) ==> it denotes exactly flat[offset, offset+len)
+pub proof fn lemma_slice_denotes(segs: Seq<U64Segment>, a: int, b: int, os: int, ol: int, offset: int, len: int)
+    requires 0 <= a <= b < segs.len(), len > 0,
+        total(segs, a) + os == offset, 0 <= os < seg_view(&segs[a]).len(),
+        total(segs, b) + ol == offset + len, 0 < ol <= seg_view(&segs[b]).len(),
+    ensures offset + len <= flat(segs, 0).len(),
+        denote(segs.subrange(a, b + 1), os, ol) =~= flat(segs, 0).subrange(offset, offset + len),
+{
+    let sub = segs.subrange(a, b + 1);
+    lemma_flat_skip(segs, a);
+    lemma_flat_sub(segs, a, b);
+    lemma_total_sub(segs, a, b, b - a);
+    lemma_total_mono(segs, a, b);
+    lemma_total_mono(segs, b + 1, segs.len() as int);
+    lemma_flat_len(segs, a);
+    assert(total(segs, b + 1) == total(segs, b) + seg_view(&segs[b]).len());
+    let f0 = flat(segs, 0);
+    let fa = flat(segs, a);
+    let w = total(segs, b + 1) - total(segs, a);
+    assert(flat(sub, 0) =~= fa.take(w));
+    assert(fa =~= f0.skip(total(segs, a) as int));
+    assert(total(sub, sub.len() as int - 1) + ol == offset + len - total(segs, a));
+}
+
+//@extract rust/lance-table/src/rowids.rs :: struct RowIdSeqSlice
+//@end
+
+impl<'a> RowIdSeqSlice<'a> {
+    pub closed spec fn sg(&self) -> Seq<U64Segment> { self.segments@ }
+    pub closed spec fn os(&self) -> int { self.offset_start as int }
+    pub closed spec fn ol(&self) -> int { self.offset_last as int }
+}
+
 impl RowIdSequence {
     /// the segments (private field, hence an accessor for the contract)
     pub closed spec fn segs(&self) -> Seq<U64Segment> { self.0@ }
@@ -85,6 +189,48 @@ impl RowIdSequence {
 //@|     }
 //@ at loop:1:after
 //@|     proof { lemma_flat_len(self.0@, 0); }
+//@end
+//@extract rust/lance-table/src/rowids.rs :: impl RowIdSequence :: fn slice
+//@ name RowIdSequence::slice
+//@ result r
+//@ spec
+//@|     requires total(self.segs(), self.segs().len() as int) <= usize::MAX,
+//@|              len > 0 ==> offset + len <= total(self.segs(), self.segs().len() as int),
+//@|     ensures
+//@|         len == 0 ==> r.sg().len() == 0,
+//@|         // the slice starts in segment a at local offset_start and ends in segment b at local offset_last ...
+//@|         len > 0 ==> exists|a: int, b: int| 0 <= a <= b < self.segs().len()
+//@|             && r.sg() == self.segs().subrange(a, b + 1)
+//@|             && total(self.segs(), a) + r.os() == offset
+//@|             && 0 <= r.os() < seg_view(&self.segs()[a]).len()
+//@|             && total(self.segs(), b) + r.ol() == offset + len
+//@|             && 0 < r.ol() <= seg_view(&self.segs()[b]).len(),
+//@|         // ... hence (lemma_slice_denotes) it denotes exactly the ids at positions [offset, offset+len) of the plain list
+//@|         len > 0 ==> denote(r.sg(), r.os(), r.ol()) =~= flat(self.segs(), 0).subrange(offset as int, offset + len),
+//@ at loop:1:iter
+//@| it
+//@ loop 1
+//@|     invariant_except_break segment_offset == it.index@,
+//@|     invariant segment_offset <= self.0@.len(),
+//@|         offset_start as nat + total(self.0@, segment_offset as int) == offset,
+//@|         total(self.0@, self.0@.len() as int) <= usize::MAX,
+//@|         offset + len <= total(self.0@, self.0@.len() as int), len > 0,
+//@|     ensures segment_offset < self.0@.len(), (offset_start as int) < seg_view(&self.0@[segment_offset as int]).len(),
+//@ at loop:1:body_start
+//@|     proof { let ghost n_ = self.0.len(); assert(it.index@ < self.0@.len()); lemma_total_mono(self.0@, segment_offset as int + 1, self.0@.len() as int); }
+//@ at loop:2:iter
+//@| it2
+//@ loop 2
+//@|     invariant_except_break segment_offset_last == segment_offset + it2.index@,
+//@|     invariant segment_offset <= segment_offset_last <= self.0@.len(), segment_offset < self.0@.len(),
+//@|         offset_last as nat + total(self.0@, segment_offset_last as int) == offset + len,
+//@|         total(self.0@, self.0@.len() as int) <= usize::MAX, offset_last > 0,
+//@|         offset + len <= total(self.0@, self.0@.len() as int),
+//@|     ensures segment_offset_last < self.0@.len(), (offset_last as int) <= seg_view(&self.0@[segment_offset_last as int]).len(),
+//@ at loop:2:body_start
+//@|     proof { let ghost n_ = self.0.len(); assert(segment_offset + it2.index@ < self.0@.len()); lemma_total_mono(self.0@, segment_offset_last as int + 1, self.0@.len() as int); }
+//@ at loop:2:after
+//@|     proof { lemma_slice_denotes(self.0@, segment_offset as int, segment_offset_last as int, offset_start as int, offset_last as int, offset as int, len as int); }
 //@end
 }
 
